@@ -127,7 +127,12 @@ func scanStashed(cb GitScannerFoundPointer) error {
 	// options to get the first WIP merge diff shown individually, then
 	// no additional options to get the second index merge diff and
 	// possible third untracked files merge diff in a subsequent step.
-	stashMergeLogArgs := [][]string{{"-m", "--first-parent"}, {}}
+	firstParentArgs := []string{"-m", "--first-parent"}
+	if git.IsGitVersionAtLeast("2.31.0") {
+		// "-m" follows log.diffMerges, which may ask for a combined diff
+		firstParentArgs = []string{"--diff-merges=first-parent", "--first-parent"}
+	}
+	stashMergeLogArgs := [][]string{firstParentArgs, {}}
 
 	for _, logArgs := range stashMergeLogArgs {
 		// Add standard search args to find lfs references
